@@ -521,6 +521,98 @@ def m_u8_eq_nocase(eng, st, fr, t, name, rname, args):
     return K(low(a) == low(b))
 
 
+def m_into_iter(eng, st, fr, t, name, rname, args):
+    v = eng.resolve(st, args[0])
+    if isinstance(v, AggV) and v.kind in (BYTES_ITER, "bytes-split", "bytes-takewhile"):
+        return v
+    if _bytes_of(eng, st, args[0]) is not None:
+        return m_slice_iter(eng, st, fr, t, name, rname, args)
+    return NotImplemented
+
+
+def m_starts_with(eng, st, fr, t, name, rname, args):
+    a = _bytes_of(eng, st, args[0])
+    b = _bytes_of(eng, st, args[1])
+    if a is None or b is None:
+        return NotImplemented
+    return K(a.startswith(b) if name.endswith("starts_with") else a.endswith(b))
+
+
+def m_slice_first(eng, st, fr, t, name, rname, args):
+    a = _bytes_of(eng, st, args[0])
+    if a is None:
+        return NotImplemented
+    if not a:
+        return mk_option(None)
+    i = 0 if name.endswith("first") else len(a) - 1
+    return mk_option(RefV(Cell(K(a[i]), "byte@%d" % i)))
+
+
+def m_slice_get(eng, st, fr, t, name, rname, args):
+    a = _bytes_of(eng, st, args[0])
+    i = eng.resolve(st, args[1])
+    if a is None or not (isinstance(i, K) and isinstance(i.v, int)):
+        return NotImplemented
+    return mk_option(RefV(Cell(K(a[i.v]), "byte@%d" % i.v))) if i.v < len(a) else mk_option(None)
+
+
+def m_slice_is_empty(eng, st, fr, t, name, rname, args):
+    a = _bytes_of(eng, st, args[0])
+    if a is None:
+        return NotImplemented
+    return K(len(a) == 0)
+
+
+def m_split_first(eng, st, fr, t, name, rname, args):
+    a = _bytes_of(eng, st, args[0])
+    if a is None:
+        return NotImplemented
+    if not a:
+        return mk_option(None)
+    return mk_option(AggV("tuple", {0: RefV(Cell(K(a[0]), "byte@0")), 1: _mkslice(a[1:])}))
+
+
+def struct_eq(eng, st, a, b, depth=0):
+    """structural equality of two abstract values: True / False / None (unknown)"""
+    a = eng.resolve(st, a)
+    b = eng.resolve(st, b)
+    n = 0
+    while isinstance(a, RefV) and isinstance(b, RefV) and n < 6:
+        if a.cell is b.cell and a.path == b.path:
+            return True
+        a = eng.resolve(st, load(Loc(a.cell, a.path)))
+        b = eng.resolve(st, load(Loc(b.cell, b.path)))
+        n += 1
+    if isinstance(a, K) and isinstance(b, K):
+        return a.v == b.v
+    if isinstance(a, BytesV) and isinstance(b, BytesV):
+        return a.b == b.b
+    if isinstance(a, EnumV) and isinstance(b, EnumV) and a.name is not None and b.name is not None and depth < 6:
+        if a.name != b.name:
+            return False
+        res = True
+        for i in set(a.fields) | set(b.fields):
+            if i not in a.fields or i not in b.fields:
+                return None
+            r = struct_eq(eng, st, a.fields[i], b.fields[i], depth + 1)
+            if r is False:
+                return False
+            if r is None:
+                res = None
+        return res
+    return None
+
+
+def m_eq_any(eng, st, fr, t, name, rname, args):
+    r = m_bytes_eq(eng, st, fr, t, name, rname, args)
+    if r is not NotImplemented:
+        return r
+    v = struct_eq(eng, st, args[0], args[1])
+    if v is None:
+        return NotImplemented
+    return K(v if not name.endswith("::ne") else not v)
+
+
 FOLD_MODELS = dict(BYTE_MODELS)
 FOLD_MODELS.update({
     "core::slice::iter": m_slice_iter,
@@ -539,7 +631,16 @@ FOLD_MODELS.update({
     "core::slice::split_at": m_split_at,
     "core::slice::index::index": m_slice_index,
     "core::ops::Index::index": m_slice_index,
-    "core::cmp::PartialEq::eq": m_bytes_eq,
+    "core::cmp::PartialEq::eq": m_eq_any,
+    "core::cmp::PartialEq::ne": m_eq_any,
+    "core::iter::IntoIterator::into_iter": m_into_iter,
+    "core::slice::starts_with": m_starts_with,
+    "core::slice::ends_with": m_starts_with,
+    "core::slice::first": m_slice_first,
+    "core::slice::last": m_slice_first,
+    "core::slice::get": m_slice_get,
+    "core::slice::is_empty": m_slice_is_empty,
+    "core::slice::split_first": m_split_first,
     "core::cmp::impls::eq": m_bytes_eq,
     "core::slice::ascii::eq_ignore_ascii_case": m_bytes_eq_nocase,
     "core::num::eq_ignore_ascii_case": m_u8_eq_nocase,
